@@ -28,6 +28,9 @@ fixed("C24","457c7aa","wrong-instruction block","block/loop_stmt/if_stmt helpers
 fixed("C24","457c7aa","wrong-instruction loop_stmt","see wrong-instruction block")
 fixed("C24","457c7aa","wrong-instruction if_stmt","see wrong-instruction block")
 
+fixed("C06","96a72e8","panic-encode ir/module/mod.rs:attempt to subtract with overflow | after {*ImportToLocal*} @*","seen only in the debug-assertions build: after replacing an import that had been ADDED through the API with a built function, encoding panicked with 'attempt to subtract with overflow' (num_funcs - num_funcs_added; the counter was adjusted by fix 174155c without its partner). Release builds wrapped silently. Witness [AddImportFunc, ImportToLocal(new)] on fn-no-imports")
+fixed("C09","96a72e8","panic-encode ir/module/mod.rs:attempt to subtract with overflow | after {*ImportToLocal*} @*","see the C06 entry")
+
 # ---- open findings ------------------------------------------------------------------------------
 for opk,ex in [("AddImportFunc","[AddImportFunc]"),("DeleteFunc","[DeleteFunc(spare)]"),("LocalToImport","[LocalToImport(1)]"),("ImportToLocal","[ImportToLocal(0)]"),
                ("AddImportedGlobal","[AddImportedGlobal]"),("DeleteGlobal","[DeleteGlobal(spare)]"),("AddImportMem","[AddImportMem]"),("DeleteMem","[DeleteMem(spare)]")]:
